@@ -440,7 +440,8 @@ class eval_abs(object):
         r %=op_size+1
         r = uint64(r)
         op_size = uint64(op_size)
-        tmpa = uint64((args[0]<<1) | args[2])
+        # widen before shifting: args[0]<<1 at the operand's own width drops its top bit
+        tmpa = (uint64(args[0])<<uint64(1)) | uint64(args[2])
         rez = (tmpa<<r) | (tmpa >> (op_size+uint64(1)-r))
         return rez
 
@@ -454,7 +455,8 @@ class eval_abs(object):
         r %=op_size+1
         r = uint64(r)
         op_size = uint64(op_size)
-        tmpa = uint64((args[0]<<1) | args[2])
+        # widen before shifting: args[0]<<1 at the operand's own width drops its top bit
+        tmpa = (uint64(args[0])<<uint64(1)) | uint64(args[2])
         rez = (tmpa>>r)  | (tmpa << (op_size+uint64(1)-r))
         return rez
 
@@ -523,6 +525,8 @@ class eval_abs(object):
                '>>>':eval_op_rotr,
                '<<<c_rez':eval_op_rotl_wflag_rez,
                '<<<c_cf':eval_op_rotl_wflag_cf,
+               '>>>c_rez':eval_op_rotr_wflag_rez,
+               '>>>c_cf':eval_op_rotr_wflag_cf,
                '<<':eval_op_lshift,
                '>>':eval_op_rshift,
                'a>>':eval_op_arshift,
